@@ -83,7 +83,7 @@ HStep(h, s, s2, t, o, r, clk, guard, OIdxOf, tgt, busy) ==
           [] o.k = "write" \/ (o.k = "try_write" /\ r # 1) -> Take(h.rb[m], MaxReads).deps
           [] (o.k = "acquire" /\ r = 0) \/ (o.k = "try_acquire" /\ r = 0) -> Take(h.sb[m], o.v).deps
           [] o.k \in {"load", "swap", "fadd", "fsub", "fmax", "fmin", "cas"} -> h.aw[m]
-          [] o.k \in {"await_flag", "wake_only"} -> h.fwr[m]
+          [] o.k \in {"await_flag", "wake_only", "reg_flag"} -> h.fwr[m]
           \* the end of the child happens before the join (thread join, awaited or probed JoinHandle that delivered)
           [] o.k = "join" \/ (o.k \in {"await_join", "try_join"} /\ r >= 0) -> {LastOrBorn(h, tgt)}
           [] o.k \in {"recv", "try_recv"} /\ r >= 0 -> {Head(h.cs[m])}
@@ -109,7 +109,7 @@ HStep(h, s, s2, t, o, r, clk, guard, OIdxOf, tgt, busy) ==
           [] o.k \in {"read", "write", "try_read", "try_write"} -> h.xr[m]
           [] o.k \in {"acquire", "try_acquire", "release", "close", "avail", "is_closed"} -> h.xs[m]
           [] o.k \in {"load", "store", "swap", "fadd", "fsub", "fmax", "fmin", "cas"} -> h.xa[m]
-          [] o.k \in {"await_flag", "set_flag", "wake_only"} -> h.xf[m]
+          [] o.k \in {"await_flag", "set_flag", "wake_only", "reg_flag"} -> h.xf[m]
           [] o.k \in {"send", "try_send", "recv", "try_recv", "clone_tx", "drop_tx", "drop_rx"} -> h.xc[m]
           [] o.k = "barrier_wait" -> h.xb[m]
           [] o.k \in {"call_once", "sonce", "lz_fadd", "lz_load", "is_completed", "sonce_done"} ->
@@ -131,7 +131,7 @@ HStep(h, s, s2, t, o, r, clk, guard, OIdxOf, tgt, busy) ==
           [] o.k \in {"read", "write", "try_read", "try_write"} -> [hh EXCEPT !.xr[m] = @ \cup {n}]
           [] o.k \in {"acquire", "try_acquire", "release", "close", "avail", "is_closed"} -> [hh EXCEPT !.xs[m] = @ \cup {n}]
           [] o.k \in {"load", "store", "swap", "fadd", "fsub", "fmax", "fmin", "cas"} -> [hh EXCEPT !.xa[m] = @ \cup {n}]
-          [] o.k \in {"await_flag", "set_flag", "wake_only"} -> [hh EXCEPT !.xf[m] = @ \cup {n}]
+          [] o.k \in {"await_flag", "set_flag", "wake_only", "reg_flag"} -> [hh EXCEPT !.xf[m] = @ \cup {n}]
           [] o.k \in {"send", "try_send", "recv", "try_recv", "clone_tx", "drop_tx", "drop_rx"} -> [hh EXCEPT !.xc[m] = @ \cup {n}]
           [] o.k = "barrier_wait" -> [hh EXCEPT !.xb[m] = @ \cup {n}]
           [] o.k \in {"call_once", "sonce", "lz_fadd", "lz_load", "is_completed", "sonce_done"} ->
